@@ -37,6 +37,17 @@ TYPED = (("vInt", 5), ("vInt", -2147483648), ("vDDD", "dt"), ("vDDD", "date"), (
          ("vGeo", None), ("vCategory", ("a,b", "c;d", "e\\")), ("vBoolean", True), ("vFloat", 1.5))
 
 
+class WireValue:
+    """A parameter value of an application's own class: not a str, it serialises itself (the documented protocol of value
+    objects).  Its wire text is quoted like any other parameter value."""
+
+    def __init__(self, text):
+        self.text = text
+
+    def to_ical(self):
+        return self.text.encode("utf-8")
+
+
 def strings(k, kmin=0):
     for n in range(kmin, k + 1):
         for t in itertools.product(SIGMA, repeat=n):
@@ -117,6 +128,8 @@ def run_case(case):
     elif pshape == 6:
         given = [("X-L", ["b", ps, "c"]), ("SENT-BY", "b")]
     # empty items at the ends of a list (an empty field after the last / before the first comma)
+    elif pshape == 9:
+        given = [("X-P", ps)]  # handed over inside an object that is no str but serialises itself (see below)
     elif pshape == 7:
         given = [("X-L", [ps, ""])]
     else:
@@ -126,7 +139,7 @@ def run_case(case):
     P = Parameters()
     for k, v in given:
         # every other case hands the value over as a vText object (docs/usage does): same wire form as the plain string
-        P[k] = v if isinstance(v, list) else (vText(v) if (len(ps) + len(str(s))) % 2 else v)
+        P[k] = WireValue(v) if pshape == 9 else (v if isinstance(v, list) else (vText(v) if (len(ps) + len(str(s))) % 2 else v))
     intended_params = {k: norm_param([x.replace('"', "'") for x in v]) if isinstance(v, list) else v.replace('"', "'") for k, v in given}
     value = make_value(wrap, s)
     val_text = value.to_ical()
@@ -308,7 +321,7 @@ def run(ctx):
 
     def gen_lists():
         for ps in allk:
-            for pshape in (4, 5, 6, 7, 8):
+            for pshape in (4, 5, 6, 7, 8, 9):
                 for name, v in (("X-A", "v"), ("ATTENDEE", "a,b;c")):
                     yield ("c", name, pshape, ps, "vText", v)
 
